@@ -4,6 +4,7 @@ import (
 	"errors"
 	"fmt"
 	"runtime"
+	"sync"
 	"sync/atomic"
 	"testing"
 	"time"
@@ -62,10 +63,62 @@ func closeWorld(w *sim.World, noConnClose bool) error {
 	}
 }
 
+// runGated runs the scenario and then probes the process-wide object pools: a pooled
+// transaction released twice by the scenario would be handed to two later transactions.
 func runGated(c gatedCase) error {
 	if c.OneP {
 		defer runtime.GOMAXPROCS(runtime.GOMAXPROCS(1))
 	}
+	if err := runGatedScenario(c); err != nil {
+		return err
+	}
+	if err := poolProbe(); err != nil {
+		return fmt.Errorf("after scenario %q: %w", c.Name, err)
+	}
+
+	return nil
+}
+
+// poolProbe starts a few transactions on a new client and answers them in reverse order: every
+// handler must see exactly its own response.
+func poolProbe() error {
+	w, err := sim.NewWorld(sim.Options{RTO: 10 * time.Second})
+	if err != nil {
+		return err
+	}
+	defer func() { _ = closeWorld(w, false); w.Release() }()
+	const k = 4
+	var got [k][]string
+	var mu sync.Mutex
+	for i := 0; i < k; i++ {
+		i := i
+		if err := w.Client.Start(request(200+i, 28), func(e stun.Event) {
+			mu.Lock()
+			got[i] = append(got[i], fmt.Sprintf("%s/%x", classifyEvent(e), e.TransactionID[8:]))
+			mu.Unlock()
+		}); err != nil {
+			return fmt.Errorf("probe: Start %d returned %v", i, err)
+		}
+	}
+	for i := k - 1; i >= 0; i-- {
+		if !w.Conn.Deliver(response(200+i, 50+i, 0)) {
+			return fmt.Errorf("probe: reader did not take the response for transaction %d", i)
+		}
+	}
+	mu.Lock()
+	defer mu.Unlock()
+	for i := 0; i < k; i++ {
+		id := txID(200 + i)
+		want := fmt.Sprintf("response/%x", id[8:])
+		if len(got[i]) != 1 || got[i][0] != want {
+			return fmt.Errorf("pooled objects are shared between transactions: of %d transactions started on a new client and answered in reverse order, the handler of transaction %d received %v, want [%s] (all: %v)", k, i, got[i], want, got)
+		}
+	}
+
+	return nil
+}
+
+func runGatedScenario(c gatedCase) error {
 	w, err := sim.NewWorld(sim.Options{RTO: 100 * time.Millisecond, NoConnClose: c.NoConnClose, NoRetransmit: c.NoRetrans})
 	if err != nil {
 		return err
